@@ -578,6 +578,9 @@ func account(c Case) {
 	if st.Doubles > 0 {
 		evid.Label(pn + ".double")
 	}
+	if tgen.HugeString(tree) {
+		evid.Label("string-or-binary>64KiB." + c.Kind)
+	}
 	if p == thriftspec.Compact {
 		if st.DeltaFields > 0 {
 			evid.Label("compact.field-header.short")
